@@ -97,6 +97,8 @@ def run(ctx, rep):
     rep.guarded("R05-STARTUP", lambda: r_startup(sh, rep))
     rep.guarded("R05-FLUSH", lambda: r_flush(sh, rep))
     rep.guarded("R05-BUILTIN", lambda: r_builtin(sh, rep))
+    rep.rule("R05-COSTVERSION", "an evaluation entry point that is told the Plutus version prices the run with that version's cost model: the cost model handed to Machine::new* depends on the version parameter", floor=2)
+    rep.guarded("R05-COSTVERSION", lambda: r_costversion(sh, rep))
     rep.guarded("R05-OWNER", lambda: r_owner(sh, rep))
     rep.guarded("R05-RESULT", lambda: r_result(sh, rep))
     rep.guarded("R05-WIRE", lambda: r_wire(sh, rep))
@@ -696,3 +698,32 @@ def r_family(sh, rep):
                 rep.bad("R05-FAMILY", "%s/%s#%s#%s#missing" % (a, b, dim, s_), CM, "no %s costing found for %s or %s under semantics %s" % (dim, a, b, s_))
                 continue
             rep.check(sa == sb, "R05-FAMILY", "%s=%s#%s#%s" % (a, b, dim, s_), CM, "under semantics %s the %s costing of %s has shape %s but its sibling %s has %s: the ledger uses one model for both, so one of the two is billed by the wrong function for some argument sizes" % (s_, dim, a, sa, b, sb), sample={"shape": sa})
+
+
+def r_costversion(sh, rep):
+    """V1, V2 and V3 scripts are priced by different parameter vectors *and* different costing-function shapes (division is
+    linear before V3 and quadratic from V3 on). An entry point that receives the script's language and builds its machine
+    with a fixed cost model reports another version's units."""
+    AST = "crates/uplc/src/ast.rs"
+    n = 0
+    for q, f in all_fns(sh.file(AST)):
+        if "body" not in f:
+            continue
+        vers = [i["pat"]["name"] for i in f["sig"]["inputs"] if isinstance(i.get("pat"), dict) and i["pat"].get("k") == "Ident" and isinstance(i.get("ty"), str) and "Language" in i["ty"]]
+        mk = [c for c in walk(f["body"]) if c.get("k") == "Call" and (call_name(c) or "").startswith("Machine::new")]
+        if not vers or not mk:
+            continue
+        n += 1
+        rep.touched(AST, q)
+        v = vers[0]
+        c = mk[0]
+        cost = c["args"][2] if (call_name(c) or "").endswith("with_protocol") and len(c["args"]) > 2 else (c["args"][1] if len(c["args"]) > 1 else None)
+        src = sh.src(AST, cost) if cost is not None else ""
+        dep = re.search(r"(?<![\w.])%s\b" % re.escape(v), src) is not None
+        if not dep and cost is not None and cost.get("k") == "Path":
+            for st in walk(f["body"]):
+                if st.get("k") == "Local" and st["pat"].get("k") == "Ident" and st["pat"]["name"] == cost["p"] and st.get("init") is not None:
+                    dep = re.search(r"(?<![\w.])%s\b" % re.escape(v), sh.src(AST, st["init"])) is not None
+        rep.check(dep, "R05-COSTVERSION", "%s#cost-model-of-the-given-version" % q.split("::")[-1], sh.loc(AST, c), "%s is given the script's language (`%s`) and builds its machine with `%s`, which does not depend on it: a V1 / V2 script is charged with another version's parameters and costing functions (divideInteger 2^200 3: 221324 cpu instead of 309053)" % (q, v, src[:60]), sample={"cost_model": src[:80]})
+    if n < 2:
+        raise AnchorMissing("evaluation entry points taking a Language and building a machine (found %d, 3 on the pinned tree)" % n)
